@@ -42,7 +42,11 @@ func GenPlan(family string, seed uint64) *Plan {
 	if r := NewRng(seed, "inlock/"+family); !p.Sched.Free && len(p.Insts) > 0 && p.Sched.InLock == 0 && p.Sched.YieldProb > 0 {
 		switch family {
 		case "faultfree", "mixed", "c08", "c05ack", "c07rounds", "c13", "ctxcancel", "stoprestart":
-			if r.Bool(1.0 / 8) {
+			share := 1.0 / 8
+			if family == "c08" {
+				share = 1.0 / 3 // coinciding demotion causes are where a lock-free reader meets a half-made transition
+			}
+			if r.Bool(share) {
 				// goroutines parked inside critical sections and in front of atomic operations (pure
 				// reorderings); the leadership flag is polled (see c11lock)
 				p.Sched.InLock = Pick(r, []float64{0.1, 0.3})
@@ -132,10 +136,24 @@ func instName(i int) string { return fmt.Sprintf("n%d", i+1) }
 
 func mkInsts(r *Rng, n, groups int) []InstCfg {
 	var out []InstCfg
+	g1, g2 := "g1", "g2"
+	if groups > 1 && r.Bool(0.25) {
+		// free-text group names (any non-empty string is a valid configuration) that differ only in
+		// characters a key sanitiser would fold together
+		g1, g2 = Pick(r, [][2]string{{"team a", "team_a"}, {"team:a", "team a"}, {".edge", "_edge"}})[0], ""
+		switch g1 {
+		case "team a":
+			g2 = "team_a"
+		case "team:a":
+			g2 = "team a"
+		default:
+			g2 = "_edge"
+		}
+	}
 	for i := 0; i < n; i++ {
-		g := "g1"
+		g := g1
 		if groups > 1 && i%groups == 1 {
-			g = "g2"
+			g = g2
 		}
 		c := InstCfg{ID: instName(i), Group: g, PromoteMode: Pick(r, []string{"block", "return", "return"})}
 		out = append(out, c)
@@ -371,6 +389,12 @@ func init() {
 			p.Actions = append(p.Actions, Action{At: t0, Kind: AStart, Inst: 1})
 		case 9: // slow store: latencies around the time-out
 			p.Faults = append(p.Faults, Fault{Kind: FSlow, Inst: 0, Op: "update", From: t0, Arg: r.Dur(T/2, 2*T)})
+		}
+		if kind >= 5 && kind <= 8 && r.Bool(0.3) {
+			// the refresh just before the loss fails transiently without being applied: the refusal
+			// that follows names a revision one above the presented one - as it would if that refresh
+			// had been applied after all
+			p.Faults = append(p.Faults, Fault{Kind: FError, Inst: 0, Op: "update", OpN: k + 1, Err: Pick(r, []string{"timeout", "noresponders"})})
 		}
 		// the record is lost and, from that moment, every read of the instance hangs or is slow:
 		// whatever the instance reads on its way to the demotion must not hold the demotion up
